@@ -22,6 +22,7 @@ class FnLower:
         self.rett = 'void'; self.ret_ref = False
         self.fn = None
         self.renames = {}
+        self.loops_closed = 0
 
     # ------------------------------------------------------------ utilities
     def emit(self, s):
@@ -231,6 +232,7 @@ class FnLower:
             self.block(b)
             self.ind -= 1; self.emit('}')
             self.scopes.pop()
+            self.loops_closed += 1
             return
         if k == 'DoStmt':
             b, c = n['inner'][0], n['inner'][1]
@@ -242,6 +244,7 @@ class FnLower:
             self.emit('if (!(%s)) break;' % ce)
             self.ind -= 1; self.emit('}')
             self.scopes.pop()
+            self.loops_closed += 1
             return
         if k == 'ForStmt':
             init, condvar, c, inc, body = n['inner']
@@ -259,6 +262,7 @@ class FnLower:
             if inc: self.expr_stmt(inc)
             self.ind -= 1; self.emit('}')
             self.scopes.pop()
+            self.loops_closed += 1
             for s in reversed(outer.dtors): self.emit(s)
             self.ind -= 1; self.emit('}')
             self.scopes.pop()
@@ -270,9 +274,22 @@ class FnLower:
             self.emit('{'); self.ind += 1
             self.stmt(rng); self.stmt(beg); self.stmt(end)
             sc = Scope('loop'); sc.cont_label = self.label('Lcont'); self.scopes.append(sc)
+            arr_n = None
+            try:
+                rt0 = self.L.deref_t(rng['inner'][0]['type'])
+                if rt0[0] == 'stdarray': arr_n = rt0[2]
+            except Unsupported: pass
+            cnt = None
+            if arr_n is not None:
+                cnt = self.tmp('_n'); self.emit('unsigned long %s = 0;' % cnt)
             self.emit('while (1) {'); self.ind += 1
             ce = self.rv(c)
             self.emit('if (!(%s)) break;' % ce)
+            if cnt is not None:
+                # std::array<T,K> model: begin() + K == end().  Ghost iteration counter: asserted, then used to
+                # cut the (infeasible) K+1-th iteration so that symbolic execution never reads past the array.
+                self.emit('if (%s >= %dUL) { __CPROVER_assert(0, "STDARRAY: range-for over std::array<T,%d> ran past end()"); __CPROVER_assume(0); }' % (cnt, arr_n, arr_n))
+                self.emit('++%s;' % cnt)
             inner = Scope('block'); self.scopes.append(inner)
             self.emit('{'); self.ind += 1
             self.stmt(var)
@@ -284,6 +301,12 @@ class FnLower:
             self.expr_stmt(inc)
             self.ind -= 1; self.emit('}')
             self.scopes.pop()
+            try:
+                rt = self.L.deref_t(rng['inner'][0]['type'])
+                if rt[0] == 'stdarray':
+                    self.L.stats.setdefault('loop_bounds', []).append(['f_' + self.fn.get('mangledName', ''), self.loops_closed, rt[2] + 1])
+            except Unsupported: pass
+            self.loops_closed += 1
             for s in reversed(outer.dtors): self.emit(s)
             self.ind -= 1; self.emit('}')
             self.scopes.pop()
@@ -892,7 +915,11 @@ class FnLower:
             path = self.idx.base_path(st[1], tt[1])
             if path is None: self.unsupported('base path')
             tc = L.need_rec(tt[1])
-            if all(p == '_b0' for p in path): return '((struct %s *)%s)' % (tc, ptr_text)
+            if not path: return ptr_text
+            if all(p == '_b0' for p in path):
+                # base subobject at offset 0: its ADDRESS AS A MEMBER (typed), not a pointer cast - CBMC keeps
+                # exact (object, offset) points-to information for member addresses, not for struct-pointer casts
+                return '(&(%s)->%s)' % (ptr_text, '.'.join(path))
             if not SIMPLE_RE.match(ptr_text):
                 t = self.tmp(); self.emit('%s * %s = %s;' % (L.ctype_of(st), t, ptr_text)); ptr_text = t
             return '(%s ? &(%s)->%s : (struct %s *)0)' % (ptr_text, ptr_text, '.'.join(path), tc)
@@ -963,6 +990,11 @@ class FnLower:
             rd = e['referencedDecl']
             if rd.get('kind') in ('VarDecl', 'ParmVarDecl', 'BindingDecl'):
                 if rd['id'] in self.refs: return '(*%s)' % self.vname(rd)
+                if rd['id'] not in self.idx.by_id and rd.get('kind') == 'VarDecl':
+                    g = 'vpg_' + sanitize(rd.get('name'))          # variable of the standard library: model constant/global
+                    L.stubs.setdefault(g, 'extern %s %s' % (L.ctype(e['type']), g))
+                    L.stats['externals'].add(g)
+                    return g
                 d = self.idx.by_id.get(rd['id'])
                 if d is not None and d.get('kind') == 'VarDecl' and d.get('storageClass') == 'static' and rd['id'] not in self.renames and self.idx.parent.get(rd['id'], {}).get('kind') in REC_KINDS:
                     self.unsupported('static data member %s' % rd.get('name'))
@@ -1142,7 +1174,7 @@ class FnLower:
             pt = L.tparse(t[1])
             ct = L.ctype_of(pt)
             p = self.tmp('_new')
-            self.emit('%s * %s = (%s *)vp_malloc(sizeof(%s));' % (ct, p, ct, ct))
+            self.emit('%s * %s = (%s *)malloc(sizeof(%s));' % (ct, p, ct, ct))
             if e.get('inner'): self.construct_into(p, e['inner'][-1], pt)
             return p
         if k == 'CXXDeleteExpr':
